@@ -5,14 +5,15 @@
 #include "../engine/src.h"
 #include "../genlib/view.h"
 #include "../genlib/parsed.h"
+#include "../genlib/setters.h"
 #include <functional>
 
 using namespace verif;
 using namespace Tins;
 
 const char* const PROP_ID = "C13";
-const size_t PROP_MAXLEN_QUICK = 16;
-const size_t PROP_MAXLEN_THOROUGH = 16;
+const size_t PROP_MAXLEN_QUICK = 128;
+const size_t PROP_MAXLEN_THOROUGH = 128;
 
 namespace {
 
@@ -131,6 +132,22 @@ void prop(Src& s, Ctx& ctx) {
     unsigned depth = s.u8() % 5;
     std::unique_ptr<PDU> k(K[ki].make());
     if (!k) { ctx.label("variant-rejected"); return; }
+    // the object's STATE may influence what type it reports (e.g. a subtype field): random public setters, or an
+    // object of the same class constructed from generated bytes
+    unsigned state_mode = s.u8() % 4;
+    if (state_mode == 1 || state_mode == 2) {
+        unsigned n = n_setters(*k);
+        unsigned cnt = 1 + (unsigned)s.range(0, 3);
+        for (unsigned i = 0; n && i < cnt; ++i) { SetterCtx sc(s, "SDT"); apply_setter(*k, (unsigned)s.pick(n), sc); }
+        ctx.label("k-with-random-state");
+    } else if (state_mode == 3) {
+        for (const Entry& e : entries()) {
+            if (K[ki].name != e.name) continue;
+            std::vector<uint8_t> b = s.bytes(s.range(0, 64));
+            try { std::unique_ptr<PDU> parsed(parse_entry(e, b.data(), b.size(), 0)); if (parsed) { parsed->inner_pdu((PDU*)nullptr); k = std::move(parsed); ctx.label("k-from-bytes"); } } catch (const std::exception&) {}
+            break;
+        }
+    }
     PDU* kraw = k.get();
     // own exact class always finds the object: checked through the T entry with the same name when there is one
     std::unique_ptr<PDU> top;
